@@ -116,6 +116,7 @@ type FnCtx struct {
 	inferredPure map[string]bool
 	specWFDone   map[string]bool
 	modDetail    *[]modTarget
+	extGlobals   map[string]bool
 	results      []Term
 	ghostEnv     map[string]TV
 	occ          map[string]int
@@ -164,7 +165,7 @@ func (g *Gen) newCtx(fn *ssa.Function) *FnCtx {
 		vals: map[ssa.Value]Term{}, tuples: map[ssa.Value][]Term{}, locs: map[ssa.Value]*Loc{},
 		blocks: map[*ssa.BasicBlock]*BlockVC{}, edges: map[string]*EdgeVC{}, oblByID: map[string]*Oblig{},
 		compSort: map[string]string{}, loops: map[*ssa.BasicBlock]*LoopInfo{}, trusted: map[string]bool{},
-		uncontr: map[string]bool{}, inferredPure: map[string]bool{}, specWFDone: map[string]bool{}, ghostEnv: map[string]TV{}, occ: map[string]int{}, boxDecl: map[string]bool{},
+		uncontr: map[string]bool{}, inferredPure: map[string]bool{}, specWFDone: map[string]bool{}, extGlobals: map[string]bool{}, ghostEnv: map[string]TV{}, occ: map[string]int{}, boxDecl: map[string]bool{},
 		pureDecl: map[string]bool{}, strLits: map[string]Term{}, storeDefs: map[Term]storeDef{}}
 	if fn != nil {
 		c.name = g.fnName(fn)
